@@ -246,6 +246,7 @@ type Render struct {
 	FormatSep    string // ", " or ","
 	StrikeOutCap bool   // spell the column "StrikeOut" (as Aegisub/ffmpeg do)
 	Hours2       bool   // HH:MM:SS.cc instead of H:MM:SS.cc
+	RadixOf      map[string]int `json:",omitempty"` // per style column: a radix of its own (cells of one document written in different notations)
 	Radix        int    // 0 &H%08X, 1 &H%08x, 2 &H%06X when alpha is 0, 3 signed decimal, 4 unsigned decimal, 5 &H%X (no leading zeros)
 	MarginPad    bool   // 4-digit margins ("0000")
 	FloatForm    int    // 0 shortest, 1 three decimals, 2 at least one decimal ("20.0")
@@ -571,7 +572,11 @@ func (d Doc) Bytes(r Render) []byte {
 						cells = append(cells, "0")
 					}
 				case "c":
-					cells = append(cells, fmtColor(v.C, r.Radix))
+					rx := r.Radix
+					if o, ok := r.RadixOf[cols[k]]; ok {
+						rx = o
+					}
+					cells = append(cells, fmtColor(v.C, rx))
 				case "f":
 					cells = append(cells, fmtFloat(v.F, r.FloatForm))
 				case "i":
